@@ -53,6 +53,7 @@ func copyTraversal(p *core.Prog) *ssa.Function {
 }
 
 type c04ctx struct {
+	wrapper types.Object // the local spawn wrapper, when goroutines are started through one
 	p    *core.Prog
 	r    *core.Report
 	fn   *ssa.Function
@@ -66,7 +67,7 @@ type c04ctx struct {
 }
 
 func runC04(p *core.Prog, r *core.Report) {
-	r.Rule("C04.R1", "spawn/complete pairing: every go statement of the copy traversal is preceded by an increment of the counter, and its function sends exactly once on the completion channel on every path, after its last client call", 10)
+	r.Rule("C04.R1", "spawn/complete pairing: every go statement of the copy traversal is preceded by an increment of the counter, and its function sends exactly once on the completion channel on every path, after its last client call", 3)
 	r.Rule("C04.R2", "barrier: every iteration path of the loop `for n > 0` performs exactly one receive and one decrement; the early non-blocking loop performs as many decrements as receives", 2)
 	r.Rule("C04.R3", "the manifest write is behind the barrier: every path to it passes the barrier's exit and the nil edge of the received error; no goroutine is started after the barrier", 3)
 	r.Rule("C04.R4", "children are written by digest with the child flag; a tag is written only without the child flag", 3)
@@ -135,6 +136,39 @@ func (cx *c04ctx) collect() bool {
 		return true
 	})
 	if len(cx.gos) == 0 {
+		// a spawn wrapper: one local literal that counts and starts the goroutine for every child,
+		// `spawn := func(task func() error) { n++; go func() { ch <- task() }() }`
+		core.InspectNoLit(body, func(n ast.Node) bool {
+			as, ok := n.(*ast.AssignStmt)
+			if !ok || len(as.Lhs) != 1 || len(as.Rhs) != 1 {
+				return true
+			}
+			lit, ok := as.Rhs[0].(*ast.FuncLit)
+			if !ok {
+				return true
+			}
+			id, ok := as.Lhs[0].(*ast.Ident)
+			if !ok {
+				return true
+			}
+			var inner []*ast.GoStmt
+			core.InspectNoLit(lit.Body, func(m ast.Node) bool {
+				if g, ok := m.(*ast.GoStmt); ok {
+					inner = append(inner, g)
+				}
+				return true
+			})
+			if len(inner) > 0 && cx.wrapper == nil {
+				cx.wrapper = cx.info.Defs[id]
+				if cx.wrapper == nil {
+					cx.wrapper = cx.info.Uses[id]
+				}
+				cx.gos = inner
+			}
+			return true
+		})
+	}
+	if len(cx.gos) == 0 {
 		cx.r.MissingAnchor("C04.R1", "go statements in "+cx.name)
 		return false
 	}
@@ -188,6 +222,23 @@ func (cx *c04ctx) collect() bool {
 		return false
 	}
 	return true
+}
+
+// callsWrapper: the node contains a call of the spawn wrapper (outside literals).
+func (cx *c04ctx) callsWrapper(n ast.Node) bool {
+	if cx.wrapper == nil {
+		return false
+	}
+	found := false
+	core.InspectNoLit(n, func(x ast.Node) bool {
+		if call, ok := x.(*ast.CallExpr); ok {
+			if id, ok := ast.Unparen(call.Fun).(*ast.Ident); ok && cx.info.Uses[id] == cx.wrapper {
+				found = true
+			}
+		}
+		return true
+	})
+	return found
 }
 
 func (cx *c04ctx) isClientCall(n ast.Node) bool {
@@ -334,8 +385,9 @@ func (cx *c04ctx) countedBefore(g *ast.GoStmt) (bool, string) {
 	return false, "the goroutine is started without a preceding " + cx.n.Name() + "++ in the same statement list: the barrier does not wait for it and the manifest can be written before this child"
 }
 
-func (cx *c04ctx) r2r3r5() {
-	body := cx.syn.Decl.Body
+// loops analyses every completion-receiving loop of body (see the comment inside) and returns the
+// barriers among them together with the control-flow graph of body.
+func (cx *c04ctx) loops(body *ast.BlockStmt) ([]*ast.ForStmt, *cfg.CFG) {
 	g := cfg.New(body, core.MayReturn)
 	selectEdge := func(b *cfg.Block) int {
 		if b.Kind != cfg.KindSelectCaseBody {
@@ -475,7 +527,118 @@ func (cx *c04ctx) r2r3r5() {
 		}
 		return true
 	})
+	return barriers, g
+}
+
+func (cx *c04ctx) r2r3r5() {
+	body := cx.syn.Decl.Body
+	barriers, g := cx.loops(body)
+	// the barrier may live in a helper that is handed the completion channel and the counter:
+	// `err = waitAll(ch, n, …)`; its loop is analysed in the helper and the call stands for the barrier
+	var helperCall *ast.CallExpr
+	var helperErr types.Object
 	if len(barriers) == 0 {
+		core.InspectNoLit(body, func(n ast.Node) bool {
+			as, ok := n.(*ast.AssignStmt)
+			if !ok || len(as.Rhs) != 1 || len(as.Lhs) != 1 {
+				return true
+			}
+			call, ok := as.Rhs[0].(*ast.CallExpr)
+			if !ok {
+				return true
+			}
+			fid, ok := ast.Unparen(call.Fun).(*ast.Ident)
+			if !ok {
+				return true
+			}
+			hobj, ok := cx.info.Uses[fid].(*types.Func)
+			if !ok {
+				return true
+			}
+			chIdx, nIdx := -1, -1
+			for i, a := range call.Args {
+				if id, ok := ast.Unparen(a).(*ast.Ident); ok {
+					if cx.info.Uses[id] == cx.ch {
+						chIdx = i
+					}
+					if cx.info.Uses[id] == cx.n {
+						nIdx = i
+					}
+				}
+			}
+			if chIdx < 0 || nIdx < 0 {
+				return true
+			}
+			hfn := cx.p.SSA.FuncValue(hobj)
+			if hfn == nil {
+				return true
+			}
+			hsyn := cx.p.Syntax(hfn)
+			if hsyn == nil || hsyn.Decl == nil || hsyn.Decl.Type.Params == nil {
+				return true
+			}
+			// parameter objects at those positions
+			var params []types.Object
+			for _, f := range hsyn.Decl.Type.Params.List {
+				for _, nm := range f.Names {
+					params = append(params, hsyn.Pkg.TypesInfo.Defs[nm])
+				}
+			}
+			if chIdx >= len(params) || nIdx >= len(params) {
+				return true
+			}
+			sub := &c04ctx{p: cx.p, r: cx.r, fn: hfn, syn: hsyn, info: hsyn.Pkg.TypesInfo, name: cx.p.FuncName(hfn), ch: params[chIdx], n: params[nIdx]}
+			hb, _ := sub.loops(hsyn.Decl.Body)
+			if len(hb) == 0 {
+				return true
+			}
+			// the helper returns only after its barrier: no return is reachable from its entry without
+			// passing the exit of the barrier loop
+			hg := cfg.New(hsyn.Decl.Body, core.MayReturn)
+			var hdone *cfg.Block
+			for _, blk := range hg.Blocks {
+				if blk.Kind == cfg.KindForDone && blk.Stmt == ast.Stmt(hb[len(hb)-1]) {
+					hdone = blk
+				}
+			}
+			early := false
+			if hdone != nil {
+				seen := map[*cfg.Block]bool{}
+				stack := []*cfg.Block{hg.Blocks[0]}
+				for len(stack) > 0 {
+					x := stack[len(stack)-1]
+					stack = stack[:len(stack)-1]
+					if seen[x] || x == hdone {
+						continue
+					}
+					seen[x] = true
+					if len(x.Succs) == 0 && x.Live {
+						// an exit that did not pass the barrier's exit: only allowed inside the loop body as an error return
+						inLoop := false
+						for _, nd := range x.Nodes {
+							if nd.Pos() >= hb[len(hb)-1].Pos() && nd.End() <= hb[len(hb)-1].End() {
+								inLoop = true
+							}
+						}
+						if !inLoop {
+							early = true
+						}
+					}
+					stack = append(stack, x.Succs...)
+				}
+			}
+			cx.r.Check(hdone != nil && !early, "C04.R2", sub.name, "helper returns after its barrier", cx.p.Pos(hsyn.Decl.Pos()), "every return of the waiting helper lies behind the exit of its barrier loop")
+			helperCall = call
+			if id, ok := as.Lhs[0].(*ast.Ident); ok {
+				helperErr = cx.info.Uses[id]
+				if helperErr == nil {
+					helperErr = cx.info.Defs[id]
+				}
+			}
+			return true
+		})
+	}
+	if len(barriers) == 0 && helperCall == nil {
 		cx.r.Undecided("C04.R2", cx.name, "barrier loop", cx.p.Pos(body.Pos()), "no loop that runs until `"+cx.n.Name()+" > 0` is false, receiving one completion per iteration, found")
 		return
 	}
@@ -510,21 +673,42 @@ func (cx *c04ctx) r2r3r5() {
 		cx.r.MissingAnchor("C04.R3", "ManifestPut call in "+cx.name)
 		return
 	}
-	// error variable: assigned from a receive inside the last barrier
-	last := barriers[len(barriers)-1]
+	// error variable: assigned from a receive inside the last barrier (or from the waiting helper)
 	var errObj types.Object
-	ast.Inspect(last.Body, func(x ast.Node) bool {
-		if as, ok := x.(*ast.AssignStmt); ok && len(as.Lhs) == 1 && len(as.Rhs) == 1 && core.IsRecvFrom(cx.info, as.Rhs[0], cx.ch) {
-			if id, ok := as.Lhs[0].(*ast.Ident); ok {
-				errObj = cx.info.Uses[id]
+	var doneBlk *cfg.Block
+	barrierPos := body.Pos()
+	if helperCall != nil {
+		errObj = helperErr
+		barrierPos = helperCall.Pos()
+		for _, b := range g.Blocks {
+			for _, nd := range b.Nodes {
+				found := false
+				core.InspectNoLit(nd, func(x ast.Node) bool {
+					if x == ast.Node(helperCall) {
+						found = true
+					}
+					return true
+				})
+				if found {
+					doneBlk = b
+				}
 			}
 		}
-		return true
-	})
-	var doneBlk *cfg.Block
-	for _, b := range g.Blocks {
-		if b.Kind == cfg.KindForDone && b.Stmt == ast.Stmt(last) {
-			doneBlk = b
+	} else {
+		last := barriers[len(barriers)-1]
+		barrierPos = last.Pos()
+		ast.Inspect(last.Body, func(x ast.Node) bool {
+			if as, ok := x.(*ast.AssignStmt); ok && len(as.Lhs) == 1 && len(as.Rhs) == 1 && core.IsRecvFrom(cx.info, as.Rhs[0], cx.ch) {
+				if id, ok := as.Lhs[0].(*ast.Ident); ok {
+					errObj = cx.info.Uses[id]
+				}
+			}
+			return true
+		})
+		for _, b := range g.Blocks {
+			if b.Kind == cfg.KindForDone && b.Stmt == ast.Stmt(last) {
+				doneBlk = b
+			}
 		}
 	}
 	reach := func(from []*cfg.Block, blocked func(from, to *cfg.Block) bool, skip *cfg.Block) map[*cfg.Block]bool {
@@ -556,7 +740,7 @@ func (cx *c04ctx) r2r3r5() {
 		// (i) unreachable when the barrier exit is removed
 		without := reach([]*cfg.Block{g.Blocks[0]}, nil, doneBlk)
 		cx.r.Check(!without[pl.b], "C04.R3", cx.name, label+" behind barrier", pos,
-			"every path from the function entry to the manifest write must pass the exit of the barrier loop at "+cx.p.Pos(last.Pos())+" (otherwise a parent manifest or the tag can be written while children are still in flight)")
+			"every path from the function entry to the manifest write must pass the exit of the barrier loop at "+cx.p.Pos(barrierPos)+" (otherwise a parent manifest or the tag can be written while children are still in flight)")
 		// (ii) behind the nil edge of the received error
 		if errObj == nil {
 			cx.r.Undecided("C04.R3", cx.name, label+" behind error test", pos, "the barrier does not assign the received completion to a variable")
@@ -609,6 +793,9 @@ func (cx *c04ctx) r2r3r5() {
 				if gs, ok := n.(*ast.GoStmt); ok {
 					goAfter = cx.p.Pos(gs.Pos())
 				}
+				if cx.callsWrapper(n) {
+					goAfter = cx.p.Pos(n.Pos())
+				}
 			}
 		}
 		cx.r.Check(goAfter == "", "C04.R3", cx.name, label+" no spawn after barrier", pos, "no goroutine may be started between the barrier and the manifest write (found: "+goAfter+")")
@@ -626,6 +813,9 @@ func (cx *c04ctx) r2r3r5() {
 				}
 				if gs, ok := n.(*ast.GoStmt); ok {
 					bad = cx.p.Pos(gs.Pos())
+				}
+				if cx.callsWrapper(n) {
+					bad = cx.p.Pos(n.Pos())
 				}
 			}
 		}
@@ -677,7 +867,7 @@ func c04R4(p *core.Prog, r *core.Report, fn *ssa.Function, rule string) {
 	// the nested copies are started from the traversal's literals or from unexported helpers they call
 	scope := map[*ssa.Function]bool{}
 	for _, f := range core.WithAnon(fn) {
-		for h := range core.Helpers(f, 2) {
+		for h := range core.HelpersExcept(f, 2, func(h *ssa.Function) bool { return h == fn }) {
 			for _, g := range core.WithAnon(h) {
 				scope[g] = true
 			}
@@ -926,12 +1116,8 @@ func c04R6(p *core.Prog, r *core.Report, trav *ssa.Function, rule string) {
 			return
 		}
 		okErr := false
-		hs := core.Helpers(f, 2)
-		for h := range hs {
-			if h == trav || h.Name() == "imageCopyBlob" {
-				delete(hs, h) // the child copies themselves are the origins looked for
-			}
-		}
+		// the child copies themselves are the origins looked for
+		hs := core.HelpersExcept(f, 2, func(h *ssa.Function) bool { return h == trav || h.Name() == "imageCopyBlob" })
 		for _, o := range core.Origins(v, core.SliceOpts{Helpers: hs}) {
 			if o.Kind != core.OCall {
 				continue
